@@ -37,6 +37,19 @@ class Ctx:
             self.errors.append(f"{getattr(fn, '__name__', 'rule')}: {e}")
         except RecursionError:
             self.errors.append(f"{getattr(fn, '__name__', 'rule')}: recursion limit hit inside the analysis")
+        except Exception as e:       # SimRaise escaping a scenario, or an internal error: never a verdict
+            from .interp import SimRaise
+            if isinstance(e, SimRaise):
+                where = ""
+                if e.fi is not None and e.node is not None:
+                    from . import astq
+                    where = astq.loc(e.fi, e.node) + ": "
+                self.errors.append(f"{getattr(fn, '__name__', 'rule')}: {where}the analysed code raises {e} in a "
+                                   f"scenario the rule expects to return normally")
+            else:
+                import traceback
+                self.errors.append(f"{getattr(fn, '__name__', 'rule')}: internal error {type(e).__name__}: {e} "
+                                   f"({traceback.format_exc().strip().splitlines()[-3].strip()})")
 
     def floor(self, rule, minimum):
         """A rule matching fewer sites than confirmed by hand passes vacuously: make that an analysis error."""
